@@ -58,13 +58,19 @@ theorem shapeConcatenate_eq_spec (a b : Shape) (k : Nat) (h : ConcatCompatible a
   obtain ⟨x, y, hx, hy, hloop⟩ := shapeConcatLoop_axis 0 k a b hl hk hc
   refine ⟨x, y, hx, hy, ?_⟩
   simp only [Nat.zero_add] at hloop
-  simp [shapeConcatenate, hl, hloop, replaceExtent_eq_set a k _ hk]
+  simp [shapeConcatenate, normAxis_nat, hl, hloop, replaceExtent_eq_set a k _ hk]
 
 theorem indexConcatenate_eq (a b : Shape) (d : Idx) (k x aa ba : Nat) (hda : d.length = a.length) (hdb : d.length = b.length)
     (ha : a[k]? = some aa) (hb : b[k]? = some ba) (hx : d[k]? = some x) :
     indexConcatenate a b d (k : Int) =
       if x < aa then some (false, d) else if x < ba + aa then some (true, d.set k (x - aa)) else none := by
-  simp only [indexConcatenate, atPy_nat, ha, hb, hx]
+  simp only [indexConcatenate, normAxis_nat, atPy_nat, ha, hb, hx]
   rw [← hda, List.take_length, ← hdb, List.take_length, mapAt_nat, hx]
+
+/-- an accepted (possibly negative) axis behaves exactly like its normalised position -/
+theorem concatenateView_axis_normalize (a b : Shape) (axis : Int) (k : Nat)
+    (hk : normalizeAxis1 axis a.length = some k) :
+    concatenateView a b (some axis) = concatenateView a b (some (k : Int)) := by
+  simp [concatenateView, shapeConcatenate, indexConcatenate, normAxis_of_normalizeAxis1 axis _ k hk, normAxis_nat]
 
 end NmVerif.Index
